@@ -86,8 +86,8 @@ theorem claimed_of_not_hasSlot (q : St) (i : Nat) (sp : Bool) (v : Nat) (pc pc' 
   have hl := lt_of_some h
   rw [step_of q i sp v _ h] at h' ⊢
   cases pc with
-  | idle => simp only [stepSender]
-  | failed => simp only [stepSender]
+  | idle => simp only [stepSender]; split <;> rfl
+  | loadedFree w => simp only [stepSender]; split <;> (try split) <;> rfl
   | gotPerm => simp only [stepSender]
   | hasSlot sl k => simp only [stepSender]
   | wrote sl k => simp only [stepSender]
@@ -107,8 +107,14 @@ theorem cas_ok_facts (q : St) (i : Nat) (sp : Bool) (v : Nat) (pc : SPc) (h : q.
   have hl := lt_of_some h
   rw [step_of q i sp v _ h] at h' ⊢
   cases pc with
-  | idle => simp only [stepSender, List.getElem?_set_self hl] at h'; split at h' <;> cases h'
-  | failed => simp only [stepSender, List.getElem?_set_self hl] at h'; cases h'
+  | idle =>
+    simp only [stepSender] at h'
+    split at h' <;> (simp only [List.getElem?_set_self hl] at h'; cases h')
+  | loadedFree w =>
+    simp only [stepSender] at h'
+    split at h'
+    · simp only [List.getElem?_set_self hl] at h'; cases h'
+    · split at h' <;> (simp only [List.getElem?_set_self hl] at h'; cases h')
   | gotPerm => simp only [stepSender, List.getElem?_set_self hl] at h'; cases h'
   | hasSlot sl k => exact False.elim hc
   | wrote sl k => exact False.elim hc
